@@ -46,10 +46,15 @@ Tables == ndJsonDeserialize(IOEnv.TRACE)
 
 Abs(x) == IF x < 0 THEN -x ELSE x
 \* cell count c, N trials, m equally likely alternatives
+\* (TLC integers are 32-bit: a grossly biased cell would overflow the products below, so a deviation that
+\* violates the bound by a wide margin - 3 d^2 > 2 L (3 E + d), which implies the exact inequality fails - is
+\* rejected first, by a comparison that needs no large product.)
 Within(c, N, m) ==
   LET E == N \div m  d == Abs(c - E) IN
   /\ N % m = 0
-  /\ 3 * m * d * d <= 2 * L * (3 * E * (m - 1) + m * d)
+  /\ \/ d = 0
+     \/ /\ 3 * d <= ((2 * L * (3 * E + d)) \div d) + 1
+        /\ 3 * m * d * d <= 2 * L * (3 * E * (m - 1) + m * d)
 
 SumSeq(s) == LET RECURSIVE S(_) S(k) == IF k = 0 THEN 0 ELSE s[k] + S(k - 1) IN S(Len(s))
 
